@@ -267,7 +267,9 @@ fn concretise(ctx: &mut Ctx, r: &mut Value, step: usize, rng: &mut Rng) -> Optio
             let pk = sk.verifying_key().to_bytes();
             ctx.keys.insert(hex(&pk), kl);
             let dt = r["dt"].as_i64().unwrap_or(0);
-            let ts = (v::unix_micros() as i64 + dt * 1000) as u64;
+            // + step microseconds: announcements made at the same (frozen) instant keep distinct timestamps, so that the
+            // timestamp -> step label map read back from get_signed_peers answers is unambiguous
+            let ts = (v::unix_micros() as i64 + dt * 1000 + step as i64) as u64;
             r["ts"] = json!(step);
             ctx.ts.insert(ts, step as i64);
             let mut sig = crypto::sign(&sk, &crypto::announce_signable(&t, ts));
@@ -460,6 +462,98 @@ fn pick<'a>(rng: &mut Rng, v: &[&'a str]) -> &'a str {
     v[rng.below(v.len() as u64) as usize]
 }
 
+/// Directed recency probes: fill a store of capacity 1..3, "use" its oldest entry in one particular way (the identical item
+/// again, a newer item, a put rejected with 302 / 301, a get with and without seq filter - or not at all), write one more
+/// entry so that exactly one entry must go, then ask for every entry and try to roll every entry back. The LRU reference
+/// (Server.tla) says who must have survived; stores: mutable items, immutable values, peers of an info_hash.
+pub fn lru_probes(id0: u64) -> Vec<Value> {
+    let mut v = vec![];
+    let from = json!({"ip": "a", "port": 1001});
+    let tok = json!({"kind":"issued","step":0});
+    let targets = [("k1", ""), ("k1", "s1"), ("k1", "s2"), ("k2", "")];
+    let putmut = |t: (&str, &str), seq: i64, cas: i64, val: &str| json!({"kind":"putmut","from":from,"tok":tok,"k":t.0,"tk":t.0,"salt":t.1,"slen":0,
+        "seq":seq,"cas":cas,"val":val,"vlen":0,"sigok":true});
+    let getmut = |t: (&str, &str), seqf: i64| json!({"kind":"get","from":from,"t":["m", t.0, t.1],"seqf":seqf});
+    let mut id = id0;
+    for cap in 1..=3usize {
+        for usage in ["none", "reput_same", "put_higher", "put_lower_302", "cas_mismatch_301", "get", "get_seqf"] {
+            for used in 0..cap.min(2) {
+                let mut steps = vec![json!({"kind":"get","from":from,"t":["i","v1"],"seqf":-1})];
+                for i in 0..cap {
+                    steps.push(putmut(targets[i], 2, -1, "w1"));
+                }
+                let u = targets[used];
+                match usage {
+                    "reput_same" => steps.push(putmut(u, 2, -1, "w1")),
+                    "put_higher" => steps.push(putmut(u, 3, -1, "w2")),
+                    "put_lower_302" => steps.push(putmut(u, 1, -1, "w2")),
+                    "cas_mismatch_301" => steps.push(putmut(u, 3, 0, "w2")),
+                    "get" => steps.push(getmut(u, -1)),
+                    "get_seqf" => steps.push(getmut(u, 2)),
+                    _ => {}
+                }
+                steps.push(putmut(targets[cap], 2, -1, "w3"));
+                for i in 0..=cap {
+                    steps.push(putmut(targets[i], 1, -1, "w2"));
+                    steps.push(getmut(targets[i], -1));
+                }
+                id += 1;
+                v.push(json!({"b": id, "filter": "allow", "caps": {"imm": cap, "mut": cap, "hash": cap, "peers": cap}, "steps": steps}));
+            }
+        }
+        // immutable values and announced peers: same idea, uses = get / identical put again / announce again
+        for usage in ["none", "reput", "get"] {
+            let ivals = ["v1", "v2", "vmax", "v1"];
+            let mut steps = vec![json!({"kind":"get","from":from,"t":["i","v1"],"seqf":-1})];
+            let putimm = |val: &str| json!({"kind":"putimm","from":from,"tok":tok,"t":["i",val],"val":val,"vlen":0,"hashok":true});
+            let getimm = |val: &str| json!({"kind":"get","from":from,"t":["i",val],"seqf":-1});
+            let names: Vec<&str> = ivals.iter().take(cap + 1).cloned().collect();
+            if names[cap] == names[0] {
+                continue;
+            }
+            for i in 0..cap {
+                steps.push(putimm(names[i]));
+            }
+            match usage {
+                "reput" => steps.push(putimm(names[0])),
+                "get" => steps.push(getimm(names[0])),
+                _ => {}
+            }
+            steps.push(putimm(names[cap]));
+            for n in &names {
+                steps.push(getimm(n));
+            }
+            id += 1;
+            v.push(json!({"b": id, "filter": "allow", "caps": {"imm": cap, "mut": cap, "hash": cap, "peers": cap}, "steps": steps}));
+        }
+        for usage in ["none", "reannounce", "getpeers"] {
+            let hashes = ["h1", "h2", "h3", "h1"];
+            let names: Vec<&str> = hashes.iter().take(cap + 1).cloned().collect();
+            if names[cap] == names[0] {
+                continue;
+            }
+            let mut steps = vec![json!({"kind":"getpeers","from":from,"t":"h3"})];
+            let ann = |h: &str, nid: &str, port: u64| json!({"kind":"announce","from":from,"tok":tok,"t":h,"nid":nid,"port":port,"implied":false});
+            let getp = |h: &str| json!({"kind":"getpeers","from":from,"t":h});
+            for i in 0..cap {
+                steps.push(ann(names[i], "n1", 7));
+            }
+            match usage {
+                "reannounce" => steps.push(ann(names[0], "n1", 8)),
+                "getpeers" => steps.push(getp(names[0])),
+                _ => {}
+            }
+            steps.push(ann(names[cap], "n2", 7));
+            for n in &names {
+                steps.push(getp(n));
+            }
+            id += 1;
+            v.push(json!({"b": id, "filter": "allow", "caps": {"imm": cap, "mut": cap, "hash": cap, "peers": 2}, "steps": steps}));
+        }
+    }
+    v
+}
+
 /// A seeded random history biased towards the interesting neighbourhood of each property.
 pub fn random_behaviour(id: u64, rng: &mut Rng, focus: &str, len: usize) -> Value {
     let small = rng.chance(2, 3);
@@ -606,6 +700,12 @@ pub fn run(args: &Args) -> i32 {
     let len = args.u64("len", 30) as usize;
     let focus = args.str("focus", "C03");
     let mut rng = Rng::new(seed.wrapping_mul(77).wrapping_add(5));
+    if n > 0 {
+        for b in lru_probes(2_000_000) {
+            let r = replay(&b, &mut out, seed);
+            t.add(&b, r);
+        }
+    }
     for i in 0..n {
         let b = random_behaviour(1_000_000 + i, &mut rng, &focus, len);
         let r = replay(&b, &mut out, seed);
